@@ -303,3 +303,55 @@ def check_local_discarded(chk, f, rule="FF5"):
     applied = [c for c in A.calls(fn) if A.callee_attr(c) == "apply_mask" and isinstance(c.func, ast.Attribute) and A.text(c.func.value) == mname]
     chk.verdict(rule, (f, applied[0] if applied else masks[0]), applied[0] if applied else "mask.apply_mask", True if applied else False,
                 f"{f.short}: the truncation is not performed with `{mname}`")
+
+
+# ------------------------------------------------- FF6 norm switch (path-sensitive in the boolean knob)
+def factor_stores(fn, obj):
+    return [n for n in A.walk_local(fn, include_self=False) if isinstance(n, ast.Assign) and len(n.targets) == 1
+            and A.text(n.targets[0]) == f"{obj}.factor"]
+
+
+def check_norm_switch(chk, rule, f, obj, knob="normalize", must_enter=None, resets=False):
+    """The function is analysed twice, once per value of the boolean `knob`: `if` tests and conditional expressions on
+    the knob are decided, everything else keeps both branches.
+      knob=False (norm tracked): every store to <obj>.factor is of the form <obj>.factor * x (accumulates, never
+        overwrites), and when `must_enter` is given every entry->return path passes a store whose value multiplies
+        <obj>.factor by `must_enter`;
+      knob=True (`resets`): a store of the constant 1 exists and no accumulating store can follow it... (last word is 1)."""
+    from ..core.cfg import CFG, specialise_expr
+    cfg = CFG(f.node)
+    stores = factor_stores(f.node, obj)
+    chk.require(stores, f"{f.short}: no store to `{obj}.factor` found")
+    me = f"{obj}.factor"
+    # ---- norm tracked
+    off = {knob: False}
+    g = cfg.specialised(off)
+    live = g.reach_from({g.entry.id})
+    enters = []
+    for st in stores:
+        if cfg.node_of[st].id not in live:
+            continue
+        v = specialise_expr(st.value, off)
+        mult = isinstance(v, ast.BinOp) and isinstance(v.op, ast.Mult) and me in (A.text(v.left), A.text(v.right))
+        chk.verdict(rule, (f, st), f"{knob}=False: `{A.short(st, 70)}` accumulates", True if mult else False,
+                    f"{f.short}: with {knob}=False the store `{A.short(st, 70)}` overwrites the norm factor instead of multiplying it: "
+                    f"the norm accumulated so far is lost")
+        if mult and must_enter is not None:
+            other = v.right if A.text(v.left) == me else v.left
+            if A.text(other) == must_enter:
+                enters.append(st)
+    if must_enter is not None:
+        ok = bool(enters) and g.always_followed(g.entry.id, enters, strict=True)
+        chk.verdict(rule, (f, enters[0] if enters else f.node), f"{knob}=False: every path to return multiplies {me} by {must_enter}",
+                    True if ok else False,
+                    f"{f.short}: with {knob}=False there is a path to `return` on which `{me}` is never multiplied by `{must_enter}`: "
+                    f"the result misses the norm factor of that operand (invisible whenever it is 1)")
+    # ---- normalised
+    if resets:
+        on = {knob: True}
+        g1 = cfg.specialised(on)
+        live1 = g1.reach_from({g1.entry.id})
+        ones_ = [st for st in stores if cfg.node_of[st].id in live1 and A.neg_const(specialise_expr(st.value, on)) == 1]
+        ok = bool(ones_) and g1.always_followed(g1.entry.id, ones_, strict=True)
+        chk.verdict(rule, (f, ones_[0] if ones_ else f.node), f"{knob}=True: every path to return resets {me} to 1", True if ok else False,
+                    f"{f.short}: with {knob}=True some path returns without resetting `{me}` to 1: the result is not normalised")
